@@ -719,6 +719,97 @@ theorem c08_tokens_stale_reading_overgrants :
   simp only [tokensFromNs, nsPerSec]
   grind
 
+/-! ## 6. the fine-grained system: the lock and every shared-memory access of `SetState` / `Resize` as steps -/
+
+/-- **Accounting in every fine-grained interleaving.** Any number of threads run `SetState` and `Resize` calls
+    (any instances, request ids, `int32` counts and limits); a step is one shared-memory access (`Lock`, map
+    lookup/insert/delete, each `atomic.*`, `Unlock`; `Resize`'s read and store of `max` are NOT under the lock and
+    may fall anywhere). In every reachable state in which no thread is inside `SetState`'s critical section —
+    in particular at quiescence — the running total is the `int32` sum of the registered per-instance counts,
+    every registered count is a non-negative `int32` and no instance is registered twice. Only the exclusion of
+    `sync.RWMutex.Lock` is assumed. -/
+theorem c08_fine_total (m : Int) (threads : Nat) (sched : List (Nat × Option Op)) (s : Fine)
+    (hcalls : ∀ e ∈ sched, ∀ op, e.2 = some op → OpI32 op)
+    (hr : fineRun (fineInit m threads) sched = some s) (hfree : s.owner = none) :
+    s.g.count = wrap32 (sumStates s.g.states) ∧ AllOk s.g.states ∧ (keys s.g.states).Nodup := by
+  have h := fineRun_inv sched _ s (fineInit_inv m threads) hcalls hr
+  exact ⟨h.free hfree, h.allOk, h.nodup⟩
+
+/-- mutual exclusion as the model has it: a thread whose pc is inside the critical section owns the lock -/
+theorem c08_fine_exclusion (m : Int) (threads : Nat) (sched : List (Nat × Option Op)) (s : Fine)
+    (hcalls : ∀ e ∈ sched, ∀ op, e.2 = some op → OpI32 op)
+    (hr : fineRun (fineInit m threads) sched = some s) (t t' : Nat) (pc pc' : Pc)
+    (h1 : s.pcs[t]? = some pc) (h2 : s.pcs[t']? = some pc') (i1 : inside pc = true) (i2 : inside pc' = true) :
+    t = t' := by
+  have h := fineRun_inv sched _ s (fineInit_inv m threads) hcalls hr
+  have a := h.excl t pc h1 i1
+  have b := h.excl t' pc' h2 i2
+  rw [a] at b; cases b; rfl
+
+/-- **The reduction (fine-grained ⟶ atomic).** For every run of the fine-grained system there is a list `lin` of
+    atomic operations, each of them a call that was issued, such that the atomic system after `lin` has the same
+    limit and — whenever no thread is inside the critical section, in particular at quiescence — is in exactly
+    the same state (limit, running total, every instance's count and request id). The linearization point of a
+    call is the step that decides it: the lookup for a removal, the id load for a stale report, the
+    `LoadInt32(&f.max)` after the add for every other report, the store for a `Resize`. So every theorem about
+    `run`/`Interleave` above holds of the fine-grained system as well. (Replies are not tracked here; the
+    harness compares them on the real code.) -/
+theorem c08_fine_reduction (m : Int) (threads : Nat) (sched : List (Nat × Option Op)) (s : Fine)
+    (hcalls : ∀ e ∈ sched, ∀ op, e.2 = some op → OpI32 op)
+    (hr : fineRun (fineInit m threads) sched = some s) :
+    ∃ lin : List Op, (∀ op ∈ lin, op ∈ sched.filterMap (·.2)) ∧ (run (G.init m) lin).max = s.g.max ∧
+      (s.owner = none → run (G.init m) lin = s.g) := by
+  have hsim0 : Sim (fineInit m threads) (G.init m) := ⟨rfl, rfl, rfl⟩
+  have hpend0 : ∀ (t : Nat) (pc : Pc) (op : Op), (fineInit m threads).pcs[t]? = some pc → pendingOp pc = some op →
+      op ∈ ([] : List Op) := by
+    intro t pc op hp hpo
+    simp only [fineInit] at hp
+    have := List.mem_of_getElem? hp
+    rw [List.mem_replicate] at this
+    rw [this.2] at hpo; cases hpo
+  obtain ⟨lin, hsim, hlin⟩ := fineRun_sim sched _ s (G.init m) [] (fineInit_inv m threads) hsim0 hpend0 hcalls hr
+  refine ⟨lin, fun op hm => by simpa using hlin op hm, hsim.1, ?_⟩
+  intro ho
+  obtain ⟨hmax, hrest⟩ := hsim
+  rw [ho] at hrest
+  exact G_ext hmax hrest.1 hrest.2
+
+/-- hence, e.g.: reports and removals racing at the granularity of single atomics keep the total exact and within
+    the (unchanged) limit in every state in which the lock is free -/
+theorem c08_fine_limit_unchanged (m : Int) (threads : Nat) (sched : List (Nat × Option Op)) (s : Fine)
+    (hm : 0 ≤ m) (hm' : InI32 m)
+    (hcalls : ∀ e ∈ sched, ∀ op, e.2 = some op → ∃ i r c, op = .set i r c ∧ InI32 c)
+    (hr : fineRun (fineInit m threads) sched = some s) (hfree : s.owner = none) :
+    s.g.count = sumStates s.g.states ∧ sumStates s.g.states ≤ m := by
+  obtain ⟨lin, hlin, _, heq⟩ := c08_fine_reduction m threads sched s
+    (fun e he op ho => by obtain ⟨i, r, c, rfl, hc⟩ := hcalls e he op ho; exact hc) hr
+  have := c08_seq_limit_unchanged_init m lin hm hm' (fun op hop => by
+    have hmem := hlin op hop
+    rw [List.mem_filterMap] at hmem
+    obtain ⟨e, he, heo⟩ := hmem
+    exact hcalls e he op heo)
+  rw [heq hfree] at this
+  exact this
+
+/-- … and with limit changes racing too (limits and counts below 2^30): exact total at every lock-free state -/
+theorem c08_fine_bounded (m : Int) (threads : Nat) (sched : List (Nat × Option Op)) (s : Fine)
+    (hm : 0 ≤ m ∧ m < 1073741824) (hcalls : ∀ e ∈ sched, ∀ op, e.2 = some op → Bounded op)
+    (hr : fineRun (fineInit m threads) sched = some s) (hfree : s.owner = none) : Inv s.g := by
+  have hI : ∀ op, Bounded op → OpI32 op := by
+    intro op hb
+    cases op with
+    | set i r c => exact hb.1
+    | resize n => have := hb.1; have := hb.2; unfold OpI32 InI32; omega
+  obtain ⟨lin, hlin, _, heq⟩ := c08_fine_reduction m threads sched s
+    (fun e he op ho => hI op (hcalls e he op ho)) hr
+  have := (c08_seq_bounded m lin hm (fun op hop => by
+    have hmem := hlin op hop
+    rw [List.mem_filterMap] at hmem
+    obtain ⟨e, he, heo⟩ := hmem
+    exact hcalls e he op heo)).1
+  rw [heq hfree] at this
+  exact this
+
 /-! ## 5. non-vacuity: the hypotheses are met by concrete, non-trivial states, and the branches are live -/
 
 example : run (G.init 100) demoOps = { max := 50, count := 70, states := [(i1, ⟨40, 2⟩), (i2, ⟨30, 1⟩)] } := by decide
@@ -747,6 +838,15 @@ example : ¬ Pre { max := 0, count := 2147483647, states := [(i1, ⟨2147483647,
 example : Interleave [[.set i1 (-1) (-1)], [.set i1 (-1) (-1), .set i1 5 7]]
     [.set i1 (-1) (-1), .set i1 (-1) (-1), .set i1 5 7] :=
   .step _ 1 _ [.set i1 5 7] _ rfl (.step _ 0 _ [] _ rfl (.step _ 1 _ [] _ rfl (.done _ (by decide))))
+/-- the fine-grained system runs: thread 0 reports 10 for `i1` (limit 100) while thread 1 lowers the limit to 5
+    between the add and the load of `max`: the report is rolled back (9 + 2 + 2 steps), quiescent at the end -/
+example : fineRun (fineInit 100 2)
+    [(0, some (.set i1 1 10)), (0, none), (0, none), (0, none), (0, none), (0, none), (0, none),
+     (1, some (.resize 5)), (1, none), (0, none), (0, none), (0, none), (0, none)] =
+    some ⟨⟨5, 0, [(i1, ⟨0, 1⟩)]⟩, none, [.idle, .idle]⟩ := by decide
+/-- a second `SetState` cannot enter while the lock is held: the step is not enabled -/
+example : fineRun (fineInit 100 2) [(0, some (.set i1 1 10)), (0, none), (1, some (.set i1 2 20)), (1, none)] = none := by
+  decide
 /-- token side: the hypotheses of `c08_tokens_rate` hold for a new limiter and an ordered history -/
 example : TimesOk 0 [([0, 0, 1, 2], 25), ([5, 5, 5, 5], 3)] := by simp [TimesOk, Chain, lastFrom]
 example : Mono (Bucket.init 10 10) 0 := fun l hl => by simp [Bucket.init] at hl
